@@ -217,7 +217,8 @@ def run(model: RepoModel, rep, tier: str):
     for sn in sets_true:
         st = cfg.stmt[sn]
         brs = cfg.controlling_branches(sn)
-        under_method_id = any(isinstance(t, ast.If) and "method_id" in norm(t.test) and "==" in norm(t.test) and lab == "T" for t, lab in brs)
+        under_method_id = any(isinstance(a_, ast.Compare) and "method_id" in norm(a_) and ((isinstance(a_.ops[0], ast.Eq) and tr_) or (isinstance(a_.ops[0], ast.NotEq) and not tr_))
+                              for a_, tr_ in cfg.conditions_at(sn))
         key = f"{EP}::check_rules::{flag} = True" + (" (exact method_id)" if under_method_id else " (all filters passed)")
         if under_method_id:
             rep.holds("C20.R2", key, EP, st.lineno, "set under `rule.method_id == scope.stmt_id`")
